@@ -16,7 +16,7 @@ def runRounds (p : Program) : List (List Key) → St → Except Err (List (List 
       | .error e => .error e
       | .ok (outs, s2) => .ok (vs :: outs, s2)
 
-theorem runRounds_spec {p : Program} (wf : WF p) (pf : NoProjOverProj p) :
+theorem runRounds_spec {p : Program} (wf : WF p) (sh : Shape p) :
     ∀ (kss : List (List Key)) (s : St), Inv p s →
       Sat (runRounds p kss s) (fun r =>
         r.1.map (fun vs => vs.map some) = kss.map (fun ks => ks.map (cur p s)) ∧
@@ -27,7 +27,7 @@ theorem runRounds_spec {p : Program} (wf : WF p) (pf : NoProjOverProj p) :
   | cons ks rest ih =>
     intro s inv
     simp only [runRounds]
-    have hrd := round_spec wf pf inv ks
+    have hrd := round_spec wf sh inv ks
     cases hs : round p (fuelFor p) ks s with
     | error e => rw [hs] at hrd; simpa [Sat] using hrd
     | ok r =>
